@@ -277,7 +277,7 @@ class Check:
             return {"C18", "C08"}
         return {"C08"}
 
-    COVERAGE_KNOWN = ("find_pippinger_window_via_estimate", "impl ::ff::Field for Fq :: fn random", "impl ::ff::Field for Fr :: fn random")
+    COVERAGE_KNOWN = ("find_pippinger_window_via_estimate",)
     COVERAGE_FILES = [
         ("bls12_381/fq.rs", {"C08", "C18", "C13"}), ("bls12_381/fr.rs", {"C08", "C18", "C13"}), ("mod fq", {"C08", "C18"}), ("mod fr", {"C08", "C18"}),
         ("bls12_381/fq2.rs", {"C09", "C18", "C12"}), ("bls12_381/fq6.rs", {"C09", "C12"}), ("bls12_381/fq12.rs", {"C09", "C12"}),
